@@ -343,11 +343,14 @@ def _run_alias(case):
         rec.inconc(f'no fixture for alias {pair} (replacement {declared})')
         return rec.out()
 
+    all_variants = list(variants)
     if case.get('tier') == 'quick' and _is_expr_family(owner):
         variants = variants[:2]  # the thorough tier runs every variant
     codes, recv_first = _watch_codes(recv_cls, module, declared)
     compared = 0
     rule_done = False
+    flagged = None  # (better match, replacement named in the warning) while a name-rule flag waits for its witness
+    last_wit = {}
     for i, v in enumerate(variants):
         recv = v['recv']
         on_class = v.get('on_class')
@@ -432,10 +435,12 @@ def _run_alias(case):
                 rec.c('bypass_without_observable_difference')
 
         # -- "the replacement is the one whose documented purpose matches the old name"
-        # The rule is decided on names once per pair; a flag needs a behavioural witness, looked for on every variant
-        # until one is found on which the better-matching function accepts the arguments. The old call need not have
-        # returned: an old name that raises where the better match returns is the witness of a sibling declared as
-        # replacement (the differential observation above cannot see it: old and declared replacement agree).
+        # Decided on names once per pair. A flag (declared replacement is not the best match of the old name) needs a
+        # behavioural witness: a receiver state / argument set on which the old name and the better match differ. The
+        # old call need not have returned: an old name that raises where the better match returns is a witness too.
+        # Every variant is tried until one separates them; after the loop the search goes on over the variants the
+        # quick tier skipped and over the fixtures registered for the better match itself.
+        last_wit = wit
         if not rule_done:
             kind = 'function' if recv_cls is None else 'method'
             cands = ob.public_functions(ns, kind)
@@ -449,27 +454,72 @@ def _run_alias(case):
                 rec.c('name_rule_accepted_best_match')
                 rule_done = True
             else:
-                if i == 0:
+                if flagged is None:
                     rec.c('name_rule_flagged')
-                b = better[0]
-                b_fn = getattr(recv if (recv_cls is not None and not on_class) else ns, b)
-                ob_b = _obs(rec, dict(call, fn=b_fn), f'a{i}_better', codes)
-                if ob_b.get('returned'):
+                flagged = (better[0], new_name)
+                if _rule_witness(rec, o, call, recv if (recv_cls is not None and not on_class) else ns, better[0], new_name, name,
+                                 pair, short, v['label'], f'a{i}_better', codes, wit, wrapper):
                     rule_done = True
-                    rec.ev()
-                    db = [(k, d) for k, d in ob.compare(o, ob_b) if k in ('result-differs', 'old-raises-replacement-returns')]
-                    if db:
-                        rec.violation(f'C20/replacement-does-not-match-documented-purpose/{short}',
-                                      f'{pair} [{v["label"]}]: forwards to {new_name} although {b} matches the old name better, and {name}(args) '
-                                      f'differs from {b}(args): ' + ' | '.join(f'{k}: {d}' for k, d in db)[:600],
-                                      dict(wit, better_match=b, better=_trim(ob_b), doc=(inspect.getdoc(wrapper) or '')[:200]))
-                    else:
-                        rec.c('name_rule_flag_without_behavioural_difference')
-                else:
-                    rec.c('name_rule_better_match_not_callable_with_same_arguments')
+    if flagged and not rule_done:
+        # no variant so far separates the declared replacement from the better match: widen the search
+        seen = {id(v) for v in variants}
+        more = [v for v in all_variants if id(v) not in seen]
+        try:
+            fb = fx.REGISTRY.get(f'{owner or case["module"]}.{flagged[0]}')
+            if fb is not None and not _is_expr_family(owner):
+                more += fb(fx.World(_world_seed(case, 'better')))
+        except BaseException:  # noqa
+            pass
+        for j, v in enumerate(more):
+            recv = v['recv']
+            on_class = v.get('on_class')
+            try:
+                old_fn = getattr(module, name) if recv_cls is None else getattr(recv_cls if on_class else recv, name)
+            except BaseException:  # noqa
+                continue
+            state = v['state'] if v.get('state') is not None else [recv, list(v['args']), v['kwargs']]
+            call = dict(args=v['args'], kwargs=v['kwargs'], post=v.get('post'), state=state, files=v.get('files'))
+            o = _obs(rec, dict(call, fn=old_fn), f'r{j}_old', codes)
+            if 'returned' not in o:
+                continue
+            rec.c('name_rule_extra_receiver_states_tried')
+            wit = dict(last_wit, variant=v['label'], old=_trim(o))
+            if _rule_witness(rec, o, call, recv if (recv_cls is not None and not on_class) else ns, flagged[0], flagged[1], name,
+                             pair, short, v['label'], f'r{j}_better', codes, wit, wrapper):
+                rule_done = True
+                break
+        if not rule_done:
+            # flagged on names, but nothing generated tells the two candidates apart: undecided for this alias, not held
+            rec.c('name_rule_flag_undecided_no_separating_receiver_state')
+            rec.c('name_rule_flag_undecided/' + short)
     if compared:
         rec.c('pair_compared::' + pair)
     return rec.out()
+
+
+def _rule_witness(rec, o, call, target, better, declared, name, pair, short, label, subdir, codes, wit, wrapper):
+    """observe the better-matching function on the same snapshot; True when old name and better match are separated"""
+    from ..oracle import c20_observe as ob
+
+    try:
+        b_fn = getattr(target, better)
+    except AttributeError:
+        return False
+    ob_b = _obs(rec, dict(call, fn=b_fn), subdir, codes)
+    if not ob_b.get('returned'):
+        rec.c('name_rule_better_match_not_callable_with_same_arguments')
+        return False
+    rec.ev()
+    db = [(k, d) for k, d in ob.compare(o, ob_b) if k in ('result-differs', 'old-raises-replacement-returns', 'state-after-call-differs')]
+    if not db:
+        rec.c('name_rule_receiver_state_does_not_separate')
+        return False
+    rec.c('name_rule_flag_confirmed_by_witness')
+    rec.violation(f'C20/replacement-does-not-match-documented-purpose/{short}',
+                  f'{pair} [{label}]: forwards to {declared} although {better} matches the old name better, and {name}(args) '
+                  f'differs from {better}(args): ' + ' | '.join(f'{k}: {d}' for k, d in db)[:600],
+                  dict(wit, better_match=better, better=_trim(ob_b), doc=(inspect.getdoc(wrapper) or '')[:200]))
+    return True
 
 
 def _trim(o):
